@@ -431,11 +431,17 @@ func c25Path(src *bnet.IP, v int, ebgp bool) *route.Path {
 	return p
 }
 
-func (r *c25Rig) objLoc(l int) int        { return l }
-func (r *c25Rig) objOut(fi int) int       { return len(r.locs) + fi }
-func (r *c25Rig) objIn(l, g int) int      { return len(r.locs) + len(r.flatOuts) + l*r.cfg.workers + g }
-func (r *c25Rig) objCM() int              { return len(r.inflight) - 1 }
-func (r *c25Rig) flatIndex(l, o int) int  { n := 0; for i := 0; i < l; i++ { n += len(r.locs[i].outs) }; return n + o }
+func (r *c25Rig) objLoc(l int) int   { return l }
+func (r *c25Rig) objOut(fi int) int  { return len(r.locs) + fi }
+func (r *c25Rig) objIn(l, g int) int { return len(r.locs) + len(r.flatOuts) + l*r.cfg.workers + g }
+func (r *c25Rig) objCM() int         { return len(r.inflight) - 1 }
+func (r *c25Rig) flatIndex(l, o int) int {
+	n := 0
+	for i := 0; i < l; i++ {
+		n += len(r.locs[i].outs)
+	}
+	return n + o
+}
 
 func (r *c25Rig) enter(obj int) {
 	r.inflight[obj].Add(1)
